@@ -2,6 +2,7 @@
 """Evaluate one seeded change against /repo and the checks.
 
 usage: tools/eval_seed.py <dir>      (dir holds patch.diff, demo.py, meta.json)
+       EVAL_SEED_REPO=/tmp/wtX tools/eval_seed.py <dir>     (the same in a scratch worktree of /repo)
 
  1. the demo passes on the unchanged /repo
  2. the patch applies; with it the demo fails and the pinned test suite still passes
@@ -15,7 +16,9 @@ import re
 import subprocess
 import sys
 
-REPO = "/repo"
+# EVAL_SEED_REPO=<scratch worktree of /repo> evaluates there instead (several seeds in parallel, /repo untouched): the checks then read
+# <worktree>/src through KVERIF_SRC and write their evidence to a scratch directory
+REPO = os.environ.get("EVAL_SEED_REPO", "/repo")
 VERIF = os.path.dirname(os.path.dirname(os.path.abspath(__file__)))
 PY = "/venv/bin/python"
 
@@ -55,15 +58,21 @@ def main(d):
         rc1, o1 = sh(f"{PY} {demo}", REPO, env=env)
         out["demo_patched_exit"] = rc1
         out["demo_patched_tail"] = o1.strip().splitlines()[-3:]
-        rct, ot = sh(f"{PY} -m pytest -q -p no:cacheprovider --timeout=900 2>&1 | tail -4", REPO)
+        rct, ot = sh(f"{PY} -m pytest -q -p no:cacheprovider --timeout=900 2>&1 | tail -4", REPO, env=env if REPO != "/repo" else None)
         m = re.search(r"(\d+) failed, (\d+) passed", ot) or re.search(r"(\d+) passed", ot)
         out["suite"] = ot.strip().splitlines()[-1] if ot.strip() else ""
         out["suite_ok"] = bool(re.search(r"\b132 passed", ot)) and not re.search(r"\b([3-9]|\d\d+) failed", ot)
         fired = {}
         man = json.load(open(os.path.join(VERIF, "MANIFEST.json")))
+        cenv = None
+        if REPO != "/repo":
+            scratch = os.path.join("/tmp", "eval_seed_ev_" + os.path.basename(REPO))
+            os.makedirs(scratch, exist_ok=True)
+            cenv = dict(os.environ, KVERIF_SRC=os.path.join(REPO, "src"), KVERIF_EVIDENCE_DIR=scratch)
+            out["evaluated_in"] = REPO
         for c in man["checks"]:
             pid = c["property_id"]
-            rc, o = sh(c["quick_cmd"], VERIF)
+            rc, o = sh(c["quick_cmd"], VERIF, env=cenv)
             keys = re.findall(r"key=(\S+)", o)
             if rc == 1:
                 fired[pid] = keys
